@@ -307,6 +307,18 @@ FINDINGS.append(
 
 FINDINGS.append(
     dict(
+        id="KF-C08-name-wrapped-in-double-quotes",
+        property="C08",
+        also=[],
+        trigger="string_begins_and_ends_with_double_quote",
+        what="in verbose mode a hash is carried as the text 'HASH(\"<name>\")' and unwrapped again when an operator is folded; compute_hash also strips one pair of surrounding double quotes, so a name that itself begins and ends with a double quote (or is a single '\"') loses them: HASH('\"') * 3 is 'Name cannot be an empty string' in verbose mode and a number in compact mode",
+        signatures=dict(C08=[dict(monitor="compact-differential", event={"in": ["only-one-mode-compiles", "token-value-differs"]})]),
+        witness=dict(C08=dict(src=H + "db.Setting = HASH(\"\\\"\") * 3\n", options=dict(append_version=False), stream="witness")),
+    )
+)
+
+FINDINGS.append(
+    dict(
         id="KF-C08-line-separator-in-string",
         property="C08",
         also=["C09"],
